@@ -131,25 +131,27 @@ func (p PoolStat) String() string {
 
 // Step is what happened for one command.
 type Step struct {
-	Idx         int
-	Cmd         Cmd
-	Tag         string // literal carried by the statement (empty for non-statements)
-	SQL         string
-	NoSession   bool // the session was already gone: command not executed
-	OK          bool // OK packet or result set
-	Err         *rawclient.Error
-	IOErr       string // transport error (proxy closed the connection, timeout)
-	Status      uint16 // server status flags of the OK/EOF packet
-	FaultArmed  bool
-	FaultFired  bool
-	FaultConn   ConnKey
-	ProxyClosed bool              // the proxy closed the client socket during/after this command (observed as EOF)
-	Events      []fakemysql.Event // backend events logged while the command ran, in global order
-	Pools       []PoolStat        // counters after the command
-	OldPools    []PoolStat        // counters of pools of previous namespace generations (reload), after the command
-	Gen         int               // namespace generation (number of reloads so far) when the command ran
-	NewConns    []ConnKey         // backend connections accepted while the command ran (synchronous with the proxy's dial)
-	Dur         time.Duration     // wall time of the command including waits of the runner
+	Idx               int
+	Cmd               Cmd
+	Tag               string // literal carried by the statement (empty for non-statements)
+	SQL               string
+	NoSession         bool // the session was already gone: command not executed
+	OK                bool // OK packet or result set
+	Err               *rawclient.Error
+	IOErr             string // transport error (proxy closed the connection, timeout)
+	Status            uint16 // server status flags of the OK/EOF packet
+	FaultArmed        bool
+	FaultFired        bool
+	FaultConn         ConnKey
+	ProxyClosed       bool              // the proxy closed the client socket during/after this command (observed as EOF)
+	ServedAfterErr    bool              // after an error and a generous wait the session still answered a COM_PING
+	ProbeInconclusive bool              // neither a close nor an answer was seen
+	Events            []fakemysql.Event // backend events logged while the command ran, in global order
+	Pools             []PoolStat        // counters after the command
+	OldPools          []PoolStat        // counters of pools of previous namespace generations (reload), after the command
+	Gen               int               // namespace generation (number of reloads so far) when the command ran
+	NewConns          []ConnKey         // backend connections accepted while the command ran (synchronous with the proxy's dial)
+	Dur               time.Duration     // wall time of the command including waits of the runner
 }
 
 // Trace is the result of running a case.
@@ -396,8 +398,13 @@ type Options struct {
 	FinalLedger bool
 	// ClientTimeout bounds the wait for a response (default 10 s).
 	ClientTimeout time.Duration
-	// ProbeCloseOnErr: after an error response wait this long for the proxy to close the socket (Step.ProxyClosed).
+	// ProbeCloseOnErr: after an error response wait up to this long (early exit) for the proxy to close the socket
+	// (Step.ProxyClosed). If the socket is still open then, one COM_PING decides: answered normally ->
+	// Step.ServedAfterErr (the session demonstrably keeps serving), EOF/reset -> ProxyClosed (late close), no answer ->
+	// Step.ProbeInconclusive.
 	ProbeCloseOnErr time.Duration
+	// ProbeCloseIf restricts the probe to error messages it accepts (nil: every error).
+	ProbeCloseIf func(msg string) bool
 }
 
 type sess struct {
@@ -516,7 +523,7 @@ func runLive(c Case, opt Options, live *Live) *Trace {
 		return tr
 	}
 	live.cl = cl
-	live.cleanup = append(live.cleanup, cl.Close)
+	live.cleanup = append(live.cleanup, cl.Abort) // connection reset: no TIME_WAIT sockets on either side
 	arm := &armed{sessConns: map[ConnKey]bool{}, stallMs: c.StallMs}
 	for _, s := range cl.All() {
 		s.Fault = arm.hook(s)
@@ -556,7 +563,8 @@ func runLive(c Case, opt Options, live *Live) *Trace {
 		tr.SetupErr = "install: " + err.Error()
 		return tr
 	}
-	live.cleanup = append(live.cleanup, func() { px.Remove(nsName) })
+	// runs last: clients are reset first, then the backends (Abort), then the namespace goes
+	live.cleanup = append([]func(){func() { px.Remove(nsName) }}, live.cleanup...)
 	gens := [][]poolRef{poolsOf(px.Manager.GetNamespace(nsName), tr.SliceNames)}
 	curPools := func() []PoolStat { return snap(gens[len(gens)-1]) }
 	oldPools := func() []PoolStat {
@@ -574,6 +582,9 @@ func runLive(c Case, opt Options, live *Live) *Trace {
 	live.cleanup = append(live.cleanup, func() {
 		for _, s := range sessions {
 			if s != nil && s.c != nil {
+				if tc, ok := s.c.NetConn().(*net.TCPConn); ok && s.alive {
+					tc.SetLinger(0) // the history is over: reset instead of leaving a TIME_WAIT socket behind
+				}
 				s.c.Close()
 			}
 		}
@@ -770,9 +781,22 @@ func runLive(c Case, opt Options, live *Live) *Trace {
 		default:
 			setRes(s.c.Exec(st.SQL))
 		}
-		if st.Err != nil && opt.ProbeCloseOnErr > 0 && s.alive {
+		if st.Err != nil && opt.ProbeCloseOnErr > 0 && s.alive && (opt.ProbeCloseIf == nil || opt.ProbeCloseIf(st.Err.Message)) {
 			if waitEOF(s.c, opt.ProbeCloseOnErr) {
 				st.ProxyClosed = true
+			} else {
+				s.c.NetConn().SetReadDeadline(time.Time{})
+				r, err := s.c.Ping()
+				switch {
+				case err == nil && r != nil:
+					st.ServedAfterErr = true
+				case err != nil && (strings.Contains(err.Error(), "EOF") || strings.Contains(err.Error(), "reset") || strings.Contains(err.Error(), "broken pipe")):
+					st.ProxyClosed = true
+				default:
+					st.ProbeInconclusive = true
+				}
+			}
+			if !st.ServedAfterErr {
 				s.c.Close()
 				s.alive = false
 			}
